@@ -266,6 +266,13 @@ func vpEnumLife() [][]any {
 		vpCallStep("gcr", 0, vpMids(vpMid("rp", 1, vpCreate(1, 1, "sts", "short"), pc(1)))), pc(1), ec(1), dm(1))
 	add(conf(1), vpCreate(1, 1, "none", "elastic"), pc(1), ec(1), vpEnv("pod_gone", 1),
 		vpCallStep("gcr", 0, vpMids(vpMid("w", 1, vpCreate(1, 1, "none", "elastic"), pc(1), ec(1), ec(1), pc(1), ec(1)))), ec(1), ec(1), dm(1))
+	// the pod is terminating but its sandbox still runs: both controllers get several turns before it exits
+	for _, k := range []string{"elastic", "short"} {
+		add(conf(1), vpCreate(1, 1, "sts", k), pc(1), ec(1), dm(1), vpEnv("pod_term", 1), pc(1), ec(1), ec(1), gcr, ec(1), ec(1), dm(1), vpEnv("pod_exit", 1), pc(1), ec(1), ec(1), ec(1))
+	}
+	// rebound after an absence just short of the TTL, then gone again at once: the absence counts from the rebinding
+	add(conf(1), vpCreate(1, 1, "sts", "short"), pc(1), ec(1), vpEnv("pod_gone", 1), pc(1), ec(1), vt.M{"a": "elapse", "ms": vpTTLShort - 3000}, gcr,
+		vpCreate(1, 2, "sts", "short"), pc(1), pc(1), pc(1), ec(1), dm(1), vpEnv("pod_gone", 1), pc(1), ec(1), vt.M{"a": "elapse", "ms": 6000}, gcr, ec(1), ec(1))
 	// an attach that took effect but never led to Bind (a later interface failed / the status write lost a race with the
 	// collector's time-stamp refresh), then the pod comes back on the other node before the pod controller saw it absent
 	add(conf(1), vpCreate(1, 1, "none", "elastic", "elastic"), pc(1), ec(1, vpFail("attach", 2, false)), vpEnv("pod_gone", 1), vpCreate(1, 2, "none", "elastic", "elastic"), dm(1))
